@@ -241,7 +241,9 @@ pub fn worker(prop: &str, tier: &str, seed: u64, from: u64, to: u64, out: &Path,
         }
         current.store(run, Ordering::Relaxed);
         beat.fetch_add(1, Ordering::Relaxed);
+        let t_run = Instant::now();
         let g = generate_and_run(prop, seed, run, thorough);
+        w.stats.max("max.run_wall_ms", t_run.elapsed().as_millis() as u64);
         w.runs += 1;
         w.steps += g.out.steps_done as u64;
         if g.fault_free {
